@@ -232,7 +232,7 @@ func (f *Formatter) formatNode(n *html.Node, buf *strings.Builder, depth int) {
 		// Style/script blocks - preserve content as-is
 		// (only HTML elements: inside svg / math these names are ordinary elements whose
 		// text the parser entity-decodes)
-		if (n.Data == "style" || n.Data == "script") && n.Namespace == "" {
+		if (n.Data == "style" || n.Data == "script") && (n.Namespace == "" || hasOnlyTextChildren(n)) {
 			f.formatRawTextElement(n, buf, indent)
 			return
 		}
@@ -317,7 +317,12 @@ func (f *Formatter) formatRawTextElement(n *html.Node, buf *strings.Builder, ind
 	var content strings.Builder
 	for c := n.FirstChild; c != nil; c = c.NextSibling {
 		if c.Type == html.TextNode {
-			content.WriteString(c.Data)
+			if n.Namespace != "" {
+				// svg / math: the parser decodes character references here
+				content.WriteString(escapeText(c.Data))
+			} else {
+				content.WriteString(c.Data)
+			}
 		}
 	}
 
@@ -335,6 +340,16 @@ func (f *Formatter) formatRawTextElement(n *html.Node, buf *strings.Builder, ind
 		buf.WriteString(f.renderCloseTag(n))
 		buf.WriteString("\n")
 	}
+}
+
+// hasOnlyTextChildren reports whether every child of n is a text node.
+func hasOnlyTextChildren(n *html.Node) bool {
+	for c := n.FirstChild; c != nil; c = c.NextSibling {
+		if c.Type != html.TextNode {
+			return false
+		}
+	}
+	return true
 }
 
 // renderPreContent recursively renders children of a <pre> element,
